@@ -347,14 +347,18 @@ End SortFacts.
 (* the dispatch chain on the answers the tests give for the objects of the alphabet (only those: the chain may
    test in any order that routes these eight kinds of object alike) *)
 Lemma k_serialize_obj_classes :
-  k_serialize_obj false false false false false false = BDumps            (* int, float, bool, None *)
-  /\ k_serialize_obj false false false true true false = BDumps          (* str: a Sequence, but a basestring *)
-  /\ k_serialize_obj false false false true false false = BArgs          (* list, tuple *)
-  /\ k_serialize_obj false false true false false false = BKwargs        (* dict *)
-  /\ k_serialize_obj false false false false false true = BToJson        (* DataMatrix *)
-  /\ k_serialize_obj true true false false false false = BName           (* callable with a name *)
-  /\ k_serialize_obj true false false false false false = BLit "__nameless__".   (* callable without *)
+  k_serialize_obj false false false false false false false = BDumps            (* int, float, bool, None *)
+  /\ k_serialize_obj false false false false true true false = BDumps          (* str: a Sequence, but a basestring *)
+  /\ k_serialize_obj false false false false true false false = BArgs          (* list, tuple *)
+  /\ k_serialize_obj false false false true false false false = BKwargs        (* dict *)
+  /\ k_serialize_obj false false false false false false true = BToJson        (* DataMatrix *)
+  /\ k_serialize_obj false true true false false false false = BName           (* callable with a name *)
+  /\ k_serialize_obj false true false false false false false = BLit "__nameless__".   (* callable without *)
 Proof. repeat split; reflexivity. Qed.
+(* a number that is also callable (CallableFloat: what col.mean, col.max ... return) takes the branch of the numbers,
+   whatever hasattr(obj, '__name__') answers *)
+Lemma k_serialize_obj_callable_value : forall hn, k_serialize_obj true true hn false false false false = BDumps.
+Proof. intros [|]; reflexivity. Qed.
 Lemma k_kwsort_key_spec : forall (Kt Vt T : Type) (repr : Kt -> T) (kv : Kt * Vt),
   k_kwsort_key repr kv = repr (fst kv).
 Proof. reflexivity. Qed.
